@@ -179,6 +179,7 @@ def runOp (scan : Scan) (r : DRun) (op : Char) (n : Nat) : DRun :=
   | 'R' => { r with rawerr := true }
   | 'E' => opEof scan r
   | 'G' => r
+  | 'x' => r
   | _ => { r with tr := r.tr.push s!"BADOP{op}" }
 
 def parseTable (s : String) : List (String × String) :=
